@@ -101,11 +101,11 @@ int take_err(void) {
 
 /* ---------------------------------------------------------------------------------------- */
 extern const op_t ops_bn[];
-#ifdef ORACLE_FULL
-extern const op_t ops_md[];
+#ifdef ORACLE_FP
 extern const op_t ops_fp[];
+#endif
+#ifdef ORACLE_EP
 extern const op_t ops_ep[];
-extern const op_t ops_misc[];
 #endif
 #ifdef ORACLE_MD
 extern const op_t ops_md[];
@@ -116,11 +116,14 @@ extern const op_t ops_prog[];
 
 static const op_t *tables[] = {
 	ops_bn,
-#if defined(ORACLE_FULL) || defined(ORACLE_MD)
+#if defined(ORACLE_MD)
 	ops_md,
 #endif
-#ifdef ORACLE_FULL
-	ops_fp, ops_ep, ops_misc,
+#ifdef ORACLE_FP
+	ops_fp,
+#endif
+#ifdef ORACLE_EP
+	ops_ep,
 #endif
 #ifdef ORACLE_PROGS
 	ops_prog,
@@ -131,7 +134,7 @@ static const op_t *tables[] = {
 static void op_cfg(int argc, char **argv) {
 	(void)argc; (void)argv;
 	fprintf(OUT, "cfg w=%d size=%d digs=%d", (int)RLC_DIG, (int)RLC_BN_SIZE, (int)RLC_BN_DIGS);
-#ifdef ORACLE_FULL
+#ifdef ORACLE_FP
 	fprintf(OUT, " fpbits=%d fpdigs=%d", (int)RLC_FP_BITS, (int)RLC_FP_DIGS);
 #endif
 	fprintf(OUT, "\n");
